@@ -187,6 +187,9 @@ class Tap(object):
         self.watch_events = False   # keep every returned event list with a digest taken at return time
         self.returned = []
         self.read_rng = None        # when set: the output is sometimes fetched as data_to_send(k) followed by data_to_send()
+        self.scramble = False       # when set: mutable arguments are private copies that are wrecked right after the call,
+                                    # like an application that reuses its lists, dicts and buffers
+        self.scrambled = 0
 
     def changed_after_return(self):
         """Event lists whose content no longer reads as it did when receive_data returned them (the library kept a
@@ -211,7 +214,32 @@ class Tap(object):
         t.watch_events = False
         t.returned = []
         t.read_rng = None
+        t.scramble = False
+        t.scrambled = 0
         return t
+
+    @staticmethod
+    def _own(a):
+        if isinstance(a, list):
+            return list(a)
+        if isinstance(a, dict):
+            return dict(a)
+        if isinstance(a, bytearray):
+            return bytearray(a)
+        return a
+
+    def _wreck(self, a):
+        if isinstance(a, list):
+            a[:] = [(b':wrecked-by-the-caller', b'after the call returned')] * 3
+            self.scrambled += 1
+        elif isinstance(a, dict):
+            a.clear()
+            a[4] = 7
+            a[0x4242] = 1
+            self.scrambled += 1
+        elif isinstance(a, bytearray):
+            a[:] = b'\xff' * len(a)
+            self.scrambled += 1
 
     def call(self, op, *args, **kw):
         drain = kw.pop('_drain', True)
@@ -222,6 +250,11 @@ class Tap(object):
                 rec['kw'] = jsonable(kw)
             self.log.append(rec)
         value = exc = None
+        owned = None
+        if self.scramble:
+            args = tuple(self._own(a) for a in args)
+            kw = {k: self._own(v) for k, v in kw.items()}
+            owned = list(args) + list(kw.values())
         try:
             value = getattr(self.c, op)(*args, **kw)
         except Exception as e:       # noqa: broad on purpose: the boundary observes everything
@@ -234,6 +267,9 @@ class Tap(object):
                         rec['code'] = int(code)
                     except Exception:
                         rec['code'] = repr(code)
+        if owned is not None:
+            for a in owned:
+                self._wreck(a)
         if self.watch_events and isinstance(value, list) and value:
             self.returned.append((value, repr(canon_events(value))))
         out = b''
